@@ -7,6 +7,14 @@ CONSTANTS
   Floor = 24
   Enabled = FALSE
   MaxSteps = 3
+  Fwd6Max = 56
+  Floor6 = 48
+  Allow = {}
+  Mapped = {}
+  CDs = {FALSE}
+  UpCd = {"echo"}
+  Dnssec = FALSE
+  Bug = "none"
 INIT Init
 NEXT Next
 VIEW View
